@@ -824,8 +824,9 @@ def square_column(tokens):
 
 
 # NUMBERS
-real_num = Regex(r"[+-]?(?:\d+\.\d*|\.\d+)(?:[eE][+-]?\d+)?").set_parser_name("float") / (lambda t: float(t[0]))
-real_pos = Regex(r"(?:\d+\.\d*|\.\d+)(?:[eE][+-]?\d+)?").set_parser_name("float") / (lambda t: float(t[0]))
+# A NEGATIVE EXPONENT MAKES A FLOAT EVEN WITHOUT A DECIMAL POINT (1e-3)
+real_num = Regex(r"[+-]?(?:\d+\.\d*|\.\d+|\d+(?=[eE]-\d))(?:[eE][+-]?\d+)?").set_parser_name("float") / (lambda t: float(t[0]))
+real_pos = Regex(r"(?:\d+\.\d*|\.\d+|\d+(?=[eE]-\d))(?:[eE][+-]?\d+)?").set_parser_name("float") / (lambda t: float(t[0]))
 
 
 def parse_int(tokens):
